@@ -280,6 +280,9 @@ oldbuf:
 err1:
 	free(WB);
 err0:
+	/* We didn't reserve any space after all. */
+	W->reserved = 0;
+
 	/* Failure! */
 	return (NULL);
 }
